@@ -201,7 +201,7 @@ def contracts():
     return cs
 
 
-LEVEL = "other"
+LEVEL = "proof"
 EXPLANATION = ("The documented assignment table is stated as postconditions D1-D7 on the real Equality._do_assignment_new_impl and "
                "Equality._do_assignment (all 256 qualifier subsets, all values y/cur, symbolically), proved modularly from exact "
                "contracts on _set_variable_if and _latch_and_onchange; collaborators (child value, variable store, onmatch look-ahead) are "
